@@ -1,7 +1,7 @@
 //! Runners of C10 / C08 / C09: oracle on the real analysis + model ties (module index through `index.mod`,
 //! generic `DbIndex` maps through `index.db`).
 use crate::analysis::*;
-use crate::{dbtie, module};
+use crate::{dbtie, module, symtie};
 use serde_json::{Value, json};
 use std::collections::{BTreeMap, HashSet};
 use vh_common::{Args, Report, Rng};
@@ -108,6 +108,12 @@ fn oracle_c10(c: &WsCase, report: &mut Report) -> Vec<String> {
     let mut removed: Vec<String> = Vec::new();
     for op in &c.ops {
         sim.apply(c, op);
+        if let AOp::Update(i, _) | AOp::Resubmit(i) = op {
+            // the file is (again) part of the workspace
+            if sim.current[*i].is_some() {
+                removed.retain(|r| r != &c.files[*i].0);
+            }
+        }
         if let AOp::Remove(i) | AOp::Close(i) = op {
             removed.push(c.files[*i].0.clone());
             report.count(if matches!(op, AOp::Remove(_)) { "c10_remove" } else { "c10_close" });
@@ -441,6 +447,7 @@ pub fn run(args: &Args, report: &mut Report) {
             // a replay of a model-tie input
             cases.clear();
             dbtie::replay(&v["input"], report);
+            symtie::replay(&v["input"], report);
             module::replay_into(&v["input"], report);
             return;
         }
@@ -520,6 +527,7 @@ pub fn run(args: &Args, report: &mut Report) {
     // ties
     module::tie_lifecycle(&mut rng, n_mod, report);
     dbtie::run(&prop, &mut rng, n_db, args.thorough(), report);
+    symtie::run(&mut rng, n_db, report);
     let mut extra: BTreeMap<String, Value> = BTreeMap::new();
     extra.insert("oracle_cases".into(), json!(cases.len()));
     report.extra.extend(extra);
